@@ -345,7 +345,11 @@ func runReplay(r *OblResult, cs *Contracts) *ReplayOutcome {
 	if !inData {
 		sb.WriteString("\tdata \"" + modulePrefix + "/data\"\n")
 	}
-	sb.WriteString(")\n\nvar _ = math.Inf\nvar _ = fmt.Sprint\n\n")
+	sb.WriteString(")\n\nvar _ = math.Inf\nvar _ = fmt.Sprint\n")
+	if !inData {
+		sb.WriteString("var _ = data.NewArray1DFloat64\n")
+	}
+	sb.WriteString("\n")
 	sb.WriteString("func owvcF(x interface{}) interface{} {\n\tswitch v := x.(type) {\n\tcase float64:\n\t\treturn fmt.Sprintf(\"%v\", v)\n\tcase []float64:\n\t\ts := []string{}\n\t\tfor _, e := range v {\n\t\t\ts = append(s, fmt.Sprintf(\"%v\", e))\n\t\t}\n\t\treturn s\n\tcase error:\n\t\tif v == nil {\n\t\t\treturn nil\n\t\t}\n\t\treturn v.Error()\n\t}\n\treturn x\n}\n\n")
 	sb.WriteString("func TestOwvcReplay(t *testing.T) {\n\tout := map[string]interface{}{}\n\tdefer func() {\n\t\tif r := recover(); r != nil {\n\t\t\tout[\"panic\"] = fmt.Sprint(r)\n\t\t}\n\t\tb, _ := json.Marshal(out)\n\t\tfmt.Println(\"OWVC-REPLAY-BEGIN\")\n\t\tfmt.Println(string(b))\n\t\tfmt.Println(\"OWVC-REPLAY-END\")\n\t}()\n")
 	for _, s := range setup {
